@@ -13,7 +13,10 @@ LEVEL_TEXT = ("Theorems about functions regenerated from collision_core.py / col
               "parameters are symmetric under swapping the geoms; friction has the (f0,f0,f1,f2,f2) layout clamped at 1e-5; write_contact stores exactly the given values (includemargin = "
               "margin, dim = condim or 1 for in-gap adhesion) at the allocated slot iff dist < margin + gap; sphere-sphere / plane-sphere equal MuJoCo's formulas away from coincident centres. "
               "The generated contact_params is additionally evaluated at Float32 next to the real @wp.func. The real mjw.collision is compared with mujoco.mj_collision contact-by-contact on "
-              "random scenes, after regression cases of the two defects this check found and that were repaired.")
+              "random scenes, after regression cases of the two defects this check found and that were repaired, and after 'inside' batches: every closed-form primitive pair with "
+              "one geom's reference point INSIDE the other, each region forced once per batch and verified from mj_kinematics (sphere centre inside a cylinder nearest the top cap / bottom cap / side "
+              "wall above and below the local origin; inside a box nearest each of the six faces; inside a capsule beyond either segment end and beside the segment on either side; inside a sphere; "
+              "a capsule's + or - segment end inside a box nearest +-x, +-y, +-z; sphere/capsule/cylinder/box/ellipsoid centre below a plane).")
 LEVEL_NOTE = ("C04_partial: box/capsule/cylinder multi-contact primitives and all GJK/EPA (convex, mesh, heightfield) pairs are covered only by the sampled comparison with mujoco.mj_collision; "
               "MuJoCo C is represented by a hand transcription. Found by this check and repaired in /repo: 'fix: contact solref ignored geom priority when a solref is in direct (negative) form' "
               "(99794be; the agreement theorem now holds unconditionally, the witness file is gone) and 'fix: capsule-capsule and box-box dropped contacts whose distance lies inside the gap' "
@@ -598,12 +601,161 @@ def _regressions(acc):
     acc.hit(f"regression:{name}:" + ("pass" if len(acc.findings) == n0 else "FAIL"))
 
 
+# -------------------------------------------------------------------------------------------------
+# reference point of one geom INSIDE the other: the closed-form routines switch to separate "inside" branches there (nearest cap vs side wall of a
+# cylinder, nearest face of a box, clamped segment point of a capsule, plane above the centre), which random surface-distance placement never reaches.
+# Every region is forced once per batch; the region is verified from mj_kinematics output before it is counted.
+
+def _inside_regions():
+  regs = [("sphere", "cylinder", r) for r in ("top-cap", "bottom-cap", "side-upper", "side-lower")]
+  regs += [("sphere", "box", f"face{s}{ax}") for ax in "xyz" for s in "+-"]
+  regs += [("sphere", "capsule", r) for r in ("end+", "end-", "mid-upper", "mid-lower")]
+  regs += [("sphere", "sphere", "offset")]
+  regs += [("capsule", "box", f"end{e}-face{s}{ax}") for (e, s, ax) in (("+", "+", "x"), ("-", "-", "x"), ("+", "-", "y"), ("-", "+", "y"), ("+", "+", "z"), ("-", "-", "z"))]
+  regs += [("plane", t, "centre-below") for t in ("sphere", "capsule", "cylinder", "box", "ellipsoid")]
+  return regs
+
+
+def _box_point(rng, size, ax, sign):
+  """local point inside a box whose nearest face is (ax, sign), clearly (clearance a there, >= 1.4 a + 2 mm to every other face)"""
+  size = np.asarray(size, float)
+  a = rng.uniform(0.1, 0.35) * size.min()
+  p = np.array([rng.uniform(-1, 1) * max(size[j] - 1.4 * a - 0.002, 0.0) for j in range(3)])
+  p[ax] = sign * (size[ax] - a)
+  return p, a
+
+
+def _rot(q):
+  w, x, y, z = q
+  return np.array([[1 - 2 * (y * y + z * z), 2 * (x * y - w * z), 2 * (x * z + w * y)], [2 * (x * y + w * z), 1 - 2 * (x * x + z * z), 2 * (y * z - w * x)],
+                   [2 * (x * z - w * y), 2 * (y * z + w * x), 1 - 2 * (x * x + y * y)]])
+
+
+def gen_inside(rng):
+  """one scene holding one two-geom group per region, the groups 1.5 m apart. Returns (xml, checks); checks[k] = (region name, outer geom name,
+  inner geom name, predicate on (local coordinates of the inner reference point in the outer frame, outer size) that confirms the region)."""
+  bodies, checks = [], []
+  cone = str(rng.choice(["pyramidal", "elliptic"]))
+  for k, (t_in, t_out, reg) in enumerate(_inside_regions()):
+    origin = np.array([1.5 * (k % 6), 1.5 * (k // 6), 1.0]) + rng.uniform(-0.1, 0.1, size=3)
+    q_out = _quat(rng, k % 5 == 4 and rng.random() < 0.5)
+    R = _rot(q_out)
+    q_in = _quat(rng, False)
+    if t_in == "plane":
+      # static plane through `origin`, normal = R[:, 2]; the geom's centre lies BELOW the plane by less than its smallest half extent
+      size = _size(rng, t_out)
+      lo = min(size) if t_out != "capsule" else size[0]
+      depth = rng.uniform(0.1, 0.8) * lo
+      c = origin + R @ np.array([rng.uniform(-0.3, 0.3), rng.uniform(-0.3, 0.3), -depth])
+      bit = 2 << len([1 for ch in checks if ch[0].startswith("plane-")])     # planes are infinite: each plane group collides only within itself
+      bodies.append(f'<geom name="o{k}" type="plane" size="0.6 0.6 .1" pos="{_f(origin)}" quat="{_f(q_out)}" contype="{bit}" conaffinity="{bit}"/>')
+      bodies.append(f'<body name="bi{k}" pos="{_f(c)}" quat="{_f(q_in)}"><freejoint/><geom name="i{k}" type="{t_out}" size="{_f(size)}" contype="{bit}" conaffinity="{bit}"/></body>')
+      checks.append((f"plane-{t_out}:{reg}", f"o{k}", f"i{k}", lambda p, sz, lo=lo: -lo < p[2] < 0))
+      continue
+    size = _size(rng, t_out)
+    if t_out == "cylinder":
+      r, h = size
+      a = rng.uniform(0.1, 0.4) * min(r, h)
+      phi = rng.uniform(0, 2 * np.pi)
+      if reg.endswith("cap"):
+        b = rng.uniform(1.4 * a + 0.002, 0.98 * r)           # clearance to the side wall, clearly larger than the clearance a to the cap
+        s, z = r - b, (h - a) * (1 if reg == "top-cap" else -1)
+        pred = (lambda p, sz, top=(reg == "top-cap"): (p[2] > 0) == top and 0 < sz[1] - abs(p[2]) < (sz[0] - np.hypot(p[0], p[1])) / 1.3)
+      else:
+        b = rng.uniform(1.4 * a + 0.002, 0.98 * h)           # clearance to the nearer cap, clearly larger than the clearance a to the wall
+        s, z = r - a, (h - b) * (1 if reg == "side-upper" else -1)
+        pred = (lambda p, sz, up=(reg == "side-upper"): (p[2] > 0) == up and 0 < sz[0] - np.hypot(p[0], p[1]) < (sz[1] - abs(p[2])) / 1.3)
+      p = np.array([s * np.cos(phi), s * np.sin(phi), z])
+      rin = rng.uniform(0.3, 1.0) * min(r, h)
+    elif t_out == "box":
+      ax, sign = "xyz".index(reg[-1]), (1 if reg[-2] == "+" else -1)
+      p, a = _box_point(rng, size, ax, sign)
+      pred = (lambda p, sz, ax=ax, sign=sign: bool(np.all(np.abs(p) < sz)) and p[ax] * sign > 0 and int(np.argmin(sz - np.abs(p))) == ax
+              and np.sort(sz - np.abs(p))[1] > 1.3 * np.sort(sz - np.abs(p))[0])
+      rin = rng.uniform(0.3, 1.0) * min(size)
+    elif t_out == "capsule":
+      r, h = size
+      phi = rng.uniform(0, 2 * np.pi)
+      s = rng.uniform(0.2, 0.6) * r
+      sign = 1 if reg in ("end+", "mid-upper") else -1
+      z = sign * (h + rng.uniform(0.1, 0.6) * r) if reg.startswith("end") else sign * rng.uniform(0.15, 0.85) * h
+      p = np.array([s * np.cos(phi), s * np.sin(phi), z])
+      pred = (lambda p, sz, sign=sign, end=reg.startswith("end"): p[2] * sign > 0 and (abs(p[2]) > sz[1]) == end
+              and np.linalg.norm(p - np.array([0, 0, np.clip(p[2], -sz[1], sz[1])])) < 0.9 * sz[0])
+      rin = rng.uniform(0.3, 1.0) * r
+    else:   # sphere in sphere
+      u = rng.normal(size=3)
+      p = u / np.linalg.norm(u) * rng.uniform(0.2, 0.8) * size[0]
+      pred = lambda p, sz: 0.1 * sz[0] < np.linalg.norm(p) < 0.9 * sz[0]
+      rin = rng.uniform(0.3, 1.0) * size[0]
+    bodies.append(f'<body name="bo{k}" pos="{_f(origin)}" quat="{_f(q_out)}"><freejoint/><geom name="o{k}" type="{t_out}" size="{_f(size)}"/></body>')
+    if t_in == "sphere":
+      c = origin + R @ p
+      bodies.append(f'<body name="bi{k}" pos="{_f(c)}" quat="{_f(q_in)}"><freejoint/><geom name="i{k}" size="{rin:.6g}"/></body>')
+      checks.append((f"sphere-{t_out}:{reg}", f"o{k}", f"i{k}", pred))
+    else:   # capsule whose segment END (+ or -) is the point p inside the box; the other end usually sticks out
+      e = 1 if reg[3] == "+" else -1
+      rc, hc = rng.uniform(0.2, 0.5) * min(size), rng.uniform(0.1, 0.3)
+      axis = _rot(q_in)[:, 2]
+      c = origin + R @ p - e * hc * axis
+      bodies.append(f'<body name="bi{k}" pos="{_f(c)}" quat="{_f(q_in)}"><freejoint/><geom name="i{k}" type="capsule" size="{rc:.6g} {hc:.6g}"/></body>')
+      checks.append((f"capsule-box:{reg}", f"o{k}", f"i{k}", (lambda pc, sz, pred=pred, e=e, hc=hc: ("end", e, hc, pred))))
+  xml = f"""<mujoco>
+  <option cone="{cone}"><flag multiccd="disable" nativeccd="disable"/></option>
+  <worldbody>
+{chr(10).join("    " + b for b in bodies)}
+  </worldbody>
+</mujoco>"""
+  return xml, checks
+
+
+def _inside(acc, ctx, nbatch):
+  import mujoco
+  import mujoco_warp as mjw
+  rng = np.random.default_rng(ctx.seed * 1000 + 44)     # own stream: the random scenes stay what they were
+  for bt in range(nbatch):
+    xml, checks = gen_inside(rng)
+    mjm = mujoco.MjModel.from_xml_string(xml)
+    mjd = mujoco.MjData(mjm)
+    mujoco.mj_kinematics(mjm, mjd)
+    mujoco.mj_collision(mjm, mjd)
+    ref = mj_contacts(mjm, mjd)
+    keep = set()
+    for (name, go, gi, pred) in checks:
+      o, i = (mujoco.mj_name2id(mjm, mujoco.mjtObj.mjOBJ_GEOM, x) for x in (go, gi))
+      Ro = mjd.geom_xmat[o].reshape(3, 3)
+      if name.startswith("plane-"):
+        ok = bool(pred(Ro.T @ (mjd.geom_xpos[i] - mjd.geom_xpos[o]), None))
+      elif name.startswith("capsule-box"):
+        _, e, hc, p2 = pred(None, None)
+        end = mjd.geom_xpos[i] + e * hc * mjd.geom_xmat[i].reshape(3, 3)[:, 2]
+        ok = bool(p2(Ro.T @ (end - mjd.geom_xpos[o]), mjm.geom_size[o].copy()))
+      else:
+        ok = bool(pred(Ro.T @ (mjd.geom_xpos[i] - mjd.geom_xpos[o]), mjm.geom_size[o].copy()))
+      pair = (min(o, i), max(o, i))
+      if ok and pair in ref:
+        acc.hit("inside:" + name)
+        acc.distinct.add(("inside", bt, pair))
+        keep.add(pair)
+      else:
+        acc.hit("inside-missed:" + name)
+    m = mjw.put_model(mjm)
+    d = mjw.put_data(mjm, mjd, nworld=1, naconmax=400)
+    mjw.kinematics(m, d)
+    mjw.collision(m, d)
+    acc.evals += 1
+    got = mjw_contacts(d, 0)
+    # only the planned pairs (the groups are 1.5 m apart; nothing else can touch)
+    compare(mjm, {k: v for k, v in ref.items() if k in keep}, {k: v for k, v in got.items() if k in keep or k not in ref}, acc, {"xml": xml, "qpos": mjd.qpos.tolist()})
+
+
 def _run(ctx, ncases, rich=True):
   import mujoco
   import mujoco_warp as mjw
   rng = np.random.default_rng(ctx.seed * 1000 + 4)
   acc = Acc()
   _regressions(acc)
+  _inside(acc, ctx, max(2, ncases // 12))
   scenes = [("focus", t1, t2) for (t1, t2) in FOCUS_PAIRS] + [("random",)] * ncases
   for c, sc in enumerate(scenes):
     xml, info = gen_focus(rng, sc[1], sc[2]) if sc[0] == "focus" else gen_scene(rng, rich=rich)
@@ -870,7 +1022,10 @@ def main : IO Unit := do
   return {"evaluations": evals, "distinct_outputs": len(outs), "disagreements": disagreements, "sample": sample, "prim_evaluations": pevals, "prim_distinct": len(pouts)}
 
 
-RULE = ("12 two-geom scenes (ellipsoid/cylinder/box/mesh/capsule/sphere GJK pairs, positive margins) placed at a true distance inside (0, margin] (hits in-margin:*), 6 regression inputs of the repaired defects (priority + direct solref; capsule/box pairs inside the gap band) first; then 2-5 free bodies with one sphere/capsule/ellipsoid/cylinder/box/mesh (inline convex vertex sets) geom each, packed in a 0.12-0.3 box (25% axis-aligned orientations), optional plane (50%) and "
+RULE = ("2 (quick) / 33 (thorough) 'inside' batches of 26 two-geom groups 1.5 m apart in one scene, random outer orientation: sphere centre inside cylinder (top-cap, bottom-cap, side-upper, side-lower; "
+        "the nearest feature is nearer by a factor >= 1.4), inside box (6 faces), inside capsule (end+, end-, mid-upper, mid-lower), inside sphere; capsule segment end inside box (6 end/face "
+        "combinations); centre of sphere/capsule/cylinder/box/ellipsoid below a tilted plane (hits inside:<pair>:<region>, counted only when the region is confirmed from geom_xpos/xmat and "
+        "mj_collision reports the pair); 12 two-geom scenes (ellipsoid/cylinder/box/mesh/capsule/sphere GJK pairs, positive margins) placed at a true distance inside (0, margin] (hits in-margin:*), 6 regression inputs of the repaired defects (priority + direct solref; capsule/box pairs inside the gap band) first; then 2-5 free bodies with one sphere/capsule/ellipsoid/cylinder/box/mesh (inline convex vertex sets) geom each, packed in a 0.12-0.3 box (25% axis-aligned orientations), optional plane (50%) and "
         "heightfield (15%); random margin/gap/priority/solmix (incl. 0 and 1e-16)/condim/friction/solref (standard and direct)/solimp per geom; 35% one explicit <pair> (no margin/gap attribute) "
         "with own condim/friction/solref/solimp; 25% one <exclude>; cone pyramidal/elliptic; multiccd on/off; 1-2 worlds. mjw.kinematics + mjw.collision vs mujoco.mj_kinematics + mj_collision: per "
         "unordered geom pair the contact lists are compared (count, dim, friction, solref, solreffriction, solimp, includemargin; dist/pos/normal by nearest-position matching); distinct = (scene, "
